@@ -685,6 +685,9 @@ def run(run: Run):
     run.rule('C01.R7', 'comparison operators: no lossy coercion before comparing and operator table of the runtime (shared with C10.R1/R2)')
     borrow(run, 'C01.R7', c10.r1_r4, rt, only_rules={'C10.R1'})
     borrow(run, 'C01.R7', c10.r2, src, rt)
+    borrow(run, 'C01.R7', c10.r9_concrete_operands, rt)
+    from . import lexer_eval
+    run.guard('C01.R5', lexer_eval.number_literal_obligations, run, 'C01.R5', src, g)
     # operand values: a reference operand is resolved for the cell that holds the formula, an override reaches the instance
     from . import c02, c04
     run.rule('C01.R8', 'operand values: the tree is parsed for its own cell (shared with C02.R8); every override batch is stored and '
